@@ -20,8 +20,15 @@ impl Property for C33Prop {
     }
     fn budget(&self, tier: Tier) -> Budget {
         match tier {
-            Tier::Quick => Budget { runs: 6_000, wall_cap_s: 32 },
-            Tier::Thorough => Budget { runs: 60_000, wall_cap_s: 320 },
+            Tier::Quick => Budget { runs: 12_000, wall_cap_s: 30 },
+            Tier::Thorough => Budget { runs: 200_000, wall_cap_s: 240 },
+        }
+    }
+    fn shrink_budget_s(&self, tier: Tier) -> u64 {
+        // Per violation signature; the unchanged tree currently yields four.
+        match tier {
+            Tier::Quick => 5,
+            Tier::Thorough => 20,
         }
     }
     fn modes(&self) -> u32 {
